@@ -3,7 +3,7 @@
    Stark bin integral instantiated by look-up tables written by the harness (the keys are the exact
    rational arguments the MODEL asks for; a missing key yields an absurd value and the case fails). *)
 Require Import Cherab.Common.Qx.
-Require Import Cherab.Model.C02_LineShape.
+Require Import Cherab.Model.C02_LineShape Cherab.Model.C02_Quadrature.
 From Coq Require Import Qabs.
 Open Scope Q_scope.
 
@@ -120,3 +120,25 @@ Definition check_support (lam sig : Q) (g : grid) (nonfinite : list Z) : bool :=
   let en := g_end g lam sig in
   let expected := if act then map (fun k => (st + Z.of_nat k)%Z) (seq 0 (Z.to_nat (en - st))) else [] in
   (length expected =? length nonfinite)%nat && forallb (fun ab => (fst ab =? snd ab)%Z) (combine expected nonfinite).
+
+(* ---- GaussianQuadrature: constructor + setter history, then polynomials it must integrate exactly ---- *)
+Fixpoint bools_eqb (a b : list bool) : bool :=
+  match a, b with [] , [] => true | x :: t, y :: u => Bool.eqb x y && bools_eqb t u | _, _ => false end.
+Fixpoint poly_scale (cs : list Q) (Mk M : Q) : Q :=
+  match cs with [] => 0 | c :: t => Qabs c * Mk + poly_scale t (Mk * M) M end.
+(* one polynomial: coefficients (increasing powers), limits a b, the implementation's value; exactness is demanded
+   for degree <= 2 min_order - 1 under 2^-40 of sum |c_k| M^k |b - a| (rounding of the node sums only) *)
+Definition poly_ok (mn : Z) (p : list Q * Q * Q * Q) : bool :=
+  let '(cs, a, b, v) := p in
+  let M := Qmax 1 (Qmax (Qabs a) (Qabs b)) in
+  (Z.of_nat (length cs) <=? 2 * mn)%Z &&
+  Qle_bool (Qabs (Qred (poly_int cs 0 a b) - v)) (pow2 (-40) * poly_scale cs 1 M * Qabs (b - a)).
+Definition check_quad (mx mn : Z) (rtol_positive : bool) (ops : list qop) (impl_ctor_ok : bool) (impl_errs : list bool)
+           (impl_min impl_max : Z) (polys : list (list Q * Q * Q * Q)) : bool :=
+  match q_init mx mn rtol_positive with
+  | None => negb impl_ctor_ok
+  | Some s0 =>
+    let '(s, errs) := q_run s0 ops in
+    impl_ctor_ok && bools_eqb errs impl_errs && (q_min s =? impl_min)%Z && (q_max s =? impl_max)%Z &&
+    forallb (poly_ok (q_min s)) polys
+  end.
